@@ -73,6 +73,63 @@ fn wide_cols() -> Vec<ColSpec> {
     ]
 }
 
+/// The wide row as statically typed targets (derive-based row and UDT carriers,
+/// std collections): a second, independent decoding path over the same bytes.
+#[derive(scylla::DeserializeRow, Debug, PartialEq)]
+struct WideTyped {
+    id: i64,
+    t: Option<String>,
+    b: Option<Vec<u8>>,
+    l: Option<Vec<i32>>,
+    s: Option<std::collections::BTreeSet<String>>,
+    m: Option<std::collections::HashMap<String, i64>>,
+    tu: Option<(Option<i32>, Option<String>)>,
+    u: Option<Udt1>,
+    n: Option<Vec<std::collections::BTreeMap<i32, Vec<String>>>>,
+    bo: bool,
+    d: Option<f64>,
+    ip: Option<std::net::IpAddr>,
+    uu: Option<uuid::Uuid>,
+    si: Option<i16>,
+    ti: Option<i8>,
+    ts: Option<scylla::value::CqlTimestamp>,
+    a: Option<String>,
+}
+
+#[derive(scylla::DeserializeValue, Debug, PartialEq)]
+struct Udt1 {
+    a: Option<i32>,
+    b: Option<String>,
+}
+
+fn wide_typed_expected() -> Vec<WideTyped> {
+    let row = |i: i64, nulls: bool| -> WideTyped {
+        fn n<T>(nulls: bool, v: T) -> Option<T> {
+            if nulls { None } else { Some(v) }
+        }
+        WideTyped {
+            id: i,
+            t: n(nulls, format!("text-{i}-żółć")),
+            b: n(nulls, vec![0, 1, 2, 0xff, i as u8]),
+            l: n(nulls, vec![1, -2, i as i32]),
+            s: n(nulls, ["a".to_string(), "b".to_string()].into_iter().collect()),
+            m: n(nulls, [("k1".to_string(), i), ("k2".to_string(), -1)].into_iter().collect()),
+            tu: n(nulls, (Some(7), None)),
+            u: n(nulls, Udt1 { a: Some(i as i32), b: Some("udt-b".into()) }),
+            n: n(nulls, vec![[(1, vec!["x".to_string(), "y".to_string()])].into_iter().collect()]),
+            bo: i % 2 == 0,
+            d: n(nulls, 1.5 * i as f64),
+            ip: n(nulls, crate::cluster::node_ip(i as usize)),
+            uu: n(nulls, uuid::Uuid::from_bytes([i as u8; 16])),
+            si: n(nulls, -3),
+            ti: n(nulls, 4),
+            ts: n(nulls, scylla::value::CqlTimestamp(1_700_000_000_000 + i)),
+            a: n(nulls, "ascii".to_string()),
+        }
+    };
+    vec![row(1, false), row(2, true), row(3, false)]
+}
+
 fn wide_rows() -> Vec<Vec<Cell>> {
     let t = |s: &str| Cell::Text(s.into());
     let row = |i: i64, nulls: bool| -> Vec<Cell> {
@@ -722,14 +779,33 @@ async fn main(plan: Plan) -> Outcome {
     if let Some(r) = step(&mut out, "wide", session.query_unpaged(format!("{WIDE_Q}1"), ())).await {
         match r {
             Ok(qr) => {
+                let mut typed: Option<Result<Vec<WideTyped>, String>> = None;
                 let decoded: Result<Vec<Vec<Option<scylla::value::CqlValue>>>, String> = (|| {
                     let rr = qr.into_rows_result().map_err(|e| e.to_string())?;
+                    // Statically typed targets over the same bytes (value or error, never a crash).
+                    typed = Some((|| {
+                        let mut v = Vec::new();
+                        for row in rr.rows::<WideTyped>().map_err(|e| e.to_string())? {
+                            v.push(row.map_err(|e| e.to_string())?);
+                        }
+                        Ok(v)
+                    })());
                     let mut v = Vec::new();
                     for row in rr.rows::<Row>().map_err(|e| e.to_string())? {
                         v.push(row.map_err(|e| e.to_string())?.columns);
                     }
                     Ok(v)
                 })();
+                out.count("typed_decodes", typed.is_some() as u64);
+                if clean {
+                    match typed {
+                        Some(Ok(v)) if v == wide_typed_expected() => out.count("wide_typed_equal", 1),
+                        other => out.violation(
+                            "c08.roundtrip",
+                            format!("typed wide rows decoded differently: {:?}", other.map(|r| r.map(|v| v.into_iter().next()))),
+                        ),
+                    }
+                }
                 if clean {
                     match decoded {
                         Ok(v) if v == expected => out.count("wide_rows_equal", 1),
